@@ -429,6 +429,11 @@ def method_cached_arg_by_id(func: CallableT) -> CallableT:
     # get() method of this dictionary, localized for efficiency.
     args_flat_to_exception_get = args_flat_to_exception.get
 
+    # Dictionary mapping from the same tuples of object identifiers to the
+    # objects identified by those identifiers, keeping those objects (and thus
+    # the uniqueness of those identifiers) alive.
+    args_flat_to_args: dict[tuple, tuple] = {}
+
     # ....................{ CLOSURE                        }....................
     @wraps(func)
     def _method_cached(self_or_cls, arg):
@@ -481,6 +486,15 @@ def method_cached_arg_by_id(func: CallableT) -> CallableT:
             if return_value is not SENTINEL:
                 return return_value
             # Else, this callable has yet to be called with these parameters.
+
+            # Preserve strong references to the objects whose identifiers key
+            # the above dictionaries for the lifetime of this cache. Object
+            # identifiers are only unique amongst *LIVING* objects: were either
+            # of these objects garbage-collected (e.g., a type hint wrapper
+            # evicted by clearing beartype caches), CPython would be free to
+            # recycle its identifier for a new unrelated object, which would
+            # then erroneously be returned the value cached for the old object.
+            args_flat_to_args[args_flat] = (self_or_cls, arg)
 
             # Attempt to...
             try:
